@@ -206,8 +206,11 @@ package logdb
 //@ trusted sync.Pool
 //@ func (k *Key) SetEntryBatchKey [C10]
 //@ trusted writes the key buffer only
+// gScanHigh: the entry index encoded by the most recent SetEntryKey (the exclusive upper key of a scan)
+//@ ghost var gScanHigh int
 //@ func (k *Key) SetEntryKey [C10]
 //@ trusted writes the key buffer only
+//@ ghostset gScanHigh := index
 //@ func (k *Key) Key [C10]
 //@ trusted returns the key buffer
 //@ func (r *cache) getLastBatch [C10]
@@ -300,6 +303,9 @@ package logdb
 //@ noframe
 //@ nobounds
 //@ requires *expectedIndex < MaxUint64
+// assumption about the store: a scan hands over only records whose key is below the upper key
+//@ requires uf("recidx", ptr(data)) < gScanHigh
+//@ invariant forall i int :: outer(old(len(ents))) <= i && i < len(*ents) ==> (*ents)[i].Index < gScanHigh
 //@ invariant outer(old(len(ents))) >= 0 && *expectedIndex >= outer(low) && len(*ents) == outer(old(len(ents))) + (*expectedIndex - outer(low))
 //@ invariant forall i int :: outer(old(len(ents))) <= i && i < len(*ents) ==> (*ents)[i].Index == outer(low) + (i - outer(old(len(ents))))
 
@@ -312,14 +318,18 @@ package logdb
 //@ func (pe *plainEntries) iterate [C09 C10]
 //@ noframe
 //@ nobounds
-//@ requires pe.kvs != nil && pe.keys != nil
-//@ modifies gIOFailed
+//@ requires pe.kvs != nil && pe.keys != nil && maxIndex < MaxUint64
+//@ modifies gIOFailed, gScanHigh
 //@ ensures result2 == nil ==> len(result0) >= len(old(ents)) && (forall i int :: len(old(ents)) <= i && i < len(result0) ==> result0[i].Index == low + (i - len(old(ents))))
+// never an entry past the logical end
+//@ ensures result2 == nil ==> (forall i int :: len(old(ents)) <= i && i < len(result0) ==> result0[i].Index <= maxIndex)
 //@ ensures gIOFailed && !old(gIOFailed) ==> result2 != nil
 
 // decoding fills the message it is given (and nothing else)
 //@ extern github.com/lni/dragonboat/v4/raftpb MustUnmarshal
 //@ modifies pointee(m)
+// (for an entry record: the decoded index is a function of the record)
+//@ ensures as(*pb.Entry, m).Index == uf("recidx", ptr(data))
 
 // ---------------------------------------------------------------- reading entries back: batched format (C09)
 // From the property: contiguous from the lower bound, never past the logical end (maxIndex),
